@@ -94,6 +94,18 @@ CHECKS = {
          'interleavings; the ilis table, wn.ilis() and the per-lexicon row digests are compared by TLC.',
     note='Trusted: TLC, SQLite. ILIs that no synset uses are visible only in the table dump when a lexicon is installed.',
     design='DESIGN.md section 4 C19'),
+ 'C08': dict(
+    engine='store',
+    category='model_checking',
+    technique='TLA+ WnSelect (Glob on strings, Select, SelectError) checked by TLC on every order of addition x specifier x language; '
+              'TLC-emitted databases rebuilt with the code, answers of wn.lexicons/Wordnet/remove judged by TLC (Judge_C08)',
+    text='Specifier semantics is an explicit TLA+ operator on strings (glob with *, bare id = most recently added, lists = union, '
+         'language filter, error rule); TLC cross-checks Glob against an independent definition and proves UnionOfMembers, '
+         'BareIsOne, NeverUnmatched, StarIsAll, ExactIsExact, ErrorRule on all sequences of the bound. Every database state TLC '
+         'explored is rebuilt through wn.add in that order and each specifier x language is asked of wn.lexicons(), '
+         'wn.Wordnet() and wn.remove(); TLC compares the sets and the error behaviour.',
+    note='Trusted: TLC string operators, SQLite GLOB for the generated (star-only) patterns.',
+    design='DESIGN.md section 4 C08'),
 }
 
 REASON_TODO = 'check not built yet in this round (planned, see DESIGN.md section 8)'
